@@ -3,6 +3,7 @@ from fractions import Fraction
 
 from .. import gen as G, num
 from ..core import Case, TOL, finite
+from .common import qtol
 
 RULE = ("opinions on dyadic grids (den 4..64, zero beliefs / zero base rates / vacuous / dogmatic / absolute mixed in), "
         "random representable floats and an uncertainty sweep; sizes 1..4 and 2-D domains; every container family and "
@@ -32,6 +33,27 @@ def gen(rng, tier):
             for u in G.sweep_u(ty):
                 s = G.simplex_with_u(rng, ty, n, u)
                 ops.append(("sweep", (s[0], s[1], G.float_dist(rng, ty, n, positive=False))))
+            # tiny but positive base-rate entries (far above machine epsilon) that decide the minimum of P/a
+            if n >= 2:
+                for t in ([1e-4, 1e-6, 1e-9, 1e-12, 3e-15] if ty == "f64" else [1e-3, 1e-4, 1e-5, 3e-6]):
+                    for _ in range(2):
+                        t_ = num.rnd(ty, t)
+                        k = rng.below(n)
+                        a = G.float_dist(rng, ty, n - 1, positive=True)
+                        a = [num.rnd(ty, x * (1.0 - t_)) for x in a]
+                        a.insert(k, t_)
+                        if not G.is_one(ty, G.fsum(ty, a)):
+                            continue
+                        s = G.float_simplex(rng, ty, n)
+                        b = list(s[0])
+                        if rng.chance(2, 3):
+                            # zero belief on the tiny-base-rate value: P/a = u there, the minimiser
+                            j = (k + 1) % n
+                            b[j] = num.rnd(ty, b[j] + b[k])
+                            b[k] = 0.0
+                            if not G.is_one(ty, num.rnd(ty, G.fsum(ty, b) + s[1])):
+                                continue
+                        ops.append(("tiny_base_rate", (b, s[1], a)))
             for tag, (b, u, a) in ops:
                 nums = b + [u] + a
                 fam = rng.choice(FAMS1)
@@ -94,15 +116,15 @@ def predicates(c, ri, rm):
         if pos:
             want = min([Fraction(1)] + [P[i] / a[i] for i in pos])
             kappa = max(1, max(1 / a[i] for i in pos))
-            if abs(u2 - want) > tol * kappa:
+            if abs(u2 - want) > qtol(c.ty, kappa):
                 out.append("maximal uncertainty %r is not min(1, min P/a) = %s" % (vals[n], float(want)))
-            if u2 < 1 - tol and not any(abs(b2[i]) <= tol * kappa for i in pos):
+            if u2 < 1 - tol and not any(abs(b2[i]) <= qtol(c.ty, kappa) for i in pos):
                 out.append("no belief mass was driven to zero")
     elif c.mop == "maxu":
         pos = [i for i in range(n) if a[i] > num.EPS[c.ty]]
         want = min([Fraction(1)] + [P[i] / a[i] for i in pos])
         kappa = max([1] + [1 / a[i] for i in pos])
-        if abs(Fraction(vals[0]) - want) > tol * kappa:
+        if abs(Fraction(vals[0]) - want) > qtol(c.ty, kappa):
             out.append("max_uncertainty %r is not min(1, min P/a) = %s" % (vals[0], float(want)))
     return out
 
